@@ -2,6 +2,7 @@ package console
 
 import (
 	"context"
+	"grog/internal/verifhook"
 	"os"
 	"os/signal"
 	"syscall"
@@ -18,6 +19,7 @@ func SetupCommand() (context.Context, *Logger) {
 		case sig := <-signalChan:
 			GetLogger(ctx).Infof("Received signal %v, exiting...", sig)
 			cancel()
+			verifhook.Emit("signal.observed", "sig", sig.String())
 		case <-ctx.Done():
 		}
 	}()
